@@ -28,9 +28,10 @@ fn vx_leaf_admit(previous_count: usize, current_count: usize, elapsed: Duration,
 { unimplemented!() }
 #[verifier::external_body]
 fn vx_leaf_buckets_passed(elapsed: Duration, bucket_duration: Duration) -> (r: u32)
-    ensures elapsed.nanos >= 2 * bucket_duration.nanos && bucket_duration.nanos > 0 ==> r >= 2,   // Kani leaf `two_buckets_idle` (thorough tier)
+    ensures elapsed.nanos >= 2 * bucket_duration.nanos && bucket_duration.nanos > 0 ==> r >= 2,   // NAMED IEEE ASSUMPTION: the Kani leaf on this division did not close in 15 min
 { unimplemented!() }
-/// SlidingCounterState::estimate_wait_time: total (Kani leaf `estimate_wait_total`); positive whenever no slot is free: NAMED IEEE ASSUMPTION
+/// SlidingCounterState::estimate_wait_time: positive whenever no slot is free — ASSUMED here; Kani leaf `estimate_wait_positive_when_full`
+/// checks it on the extracted function for counts <= 10^4 away from the last millionth of the bucket (DESIGN 11.4)
 #[verifier::external_body]
 fn vx_estimate_wait_time(previous_count: usize, current_count: usize, limit_for_period: usize, bucket_duration: Duration, elapsed: Duration) -> (r: Duration)
     ensures r.nanos > 0,
